@@ -103,6 +103,9 @@ def body_factory(wrapper, step, trained0, hook, depth, col):
     premarked = isinstance(step, tuple) and step[0] == "evaluated"
     if premarked:
         step = step[1]
+    nostats = isinstance(step, tuple) and step[0] == "nostats"        # the wrapper's eval_stats option switched off
+    if nostats:
+        step = step[1]
     weird = isinstance(step, tuple) and step[0] == "weird"
     if weird:
         step = step[1]
@@ -115,6 +118,8 @@ def body_factory(wrapper, step, trained0, hook, depth, col):
         step = schedule[2] if schedule is not None else body.step
         from artap.individual import Individual
         problem, s, stub, st = make(wrapper, step, trained0, hook, weird)
+        if nostats:
+            s.eval_stats = False
         st["ctx"] = ctx
         out = []
         # reference automaton
@@ -212,7 +217,7 @@ def body_factory(wrapper, step, trained0, hook, depth, col):
                 break
         ctx.digest = (tuple(trace), s.eval_counter, s.predict_counter)
         if interesting:
-            col.nontrivial((wrapper, schedule or (preload, step, weird, premarked, via_store), trained0, hook, tuple(ctx.choices)))
+            col.nontrivial((wrapper, schedule or (preload, step, weird, premarked, via_store, nostats), trained0, hook, tuple(ctx.choices)))
         return out
     body.step = step
     return body
@@ -348,6 +353,13 @@ def run(tier, seed):
             for hook in (False, True):
                 shards.append((wrapper, pre, False, hook, 12 if not hook else min(depth, 7)))
     shards.append(("eval", ("evaluated", -1), True, False, 9))
+    shards.append(("eval", ("nostats", -1), True, False, 9))
+    for wrapper in ("scikit", "smt"):
+        # (with eval_stats off the scikit wrapper cannot retrain at all -- its train() compares a score it has not computed --
+        # which no clause of the statement covers; the option is exercised where no retraining is due)
+        for step in ((-1,) if wrapper == "scikit" else (-1, 2)):
+            shards.append((wrapper, ("nostats", step), True, True, min(depth, 7)))
+            shards.append((wrapper, ("nostats", step), False, False, 12))
     shards.append(("two", 12))
     shards.append(("viajob",))
     for wrapper in ("scikit", "smt"):          # hundreds to a thousand stored samples: the retraining rule does not change with the size of the training set
